@@ -355,12 +355,14 @@ def run(tier, seed):
     t0 = time.time()
     q = tier == 'quick'
     items = [{'file': f, 'path': p, 'bg0': bg, 'seed': seed, 'max_entries': 2 if q else 3, 'requests': 4 if q else 5, 'restarts': 8 if q else 40,
-              'max_paths': 2400 if q else 200000, 'budget_s': 16 if q else 300} for f in FILES for p in PATHS for bg in (False, True)]
+              'max_paths': 1600 if q else 200000, 'budget_s': 9 if q else 300} for f in FILES for p in PATHS for bg in (False, True)]
     # directed: a background script and a queued script both under way, then every kind of request
     items += [{'file': f, 'path': p, 'bg0': bg, 'directed': True, 'seed': seed, 'max_entries': 2, 'requests': 4 if q else 5, 'restarts': 4 if q else 20,
                'max_paths': 1200 if q else 100000, 'budget_s': 10 if q else 200} for f in FILES[:3] for p in ('p', 'q&"r<', None) for bg in (False, True)]
     items += [{'file': f, 'path': p, 'bg0': True, 'both_bg': True, 'directed': True, 'seed': seed, 'max_entries': 2, 'requests': 4 if q else 5, 'restarts': 4 if q else 20,
                'max_paths': 1200 if q else 100000, 'budget_s': 10 if q else 200} for f in FILES[:2] for p in ('p', 'q&"r<')]
+    # the directed histories first: when the machine is busy the quick tier's budget cuts from the end of the list
+    items.sort(key=lambda it: 0 if it.get('directed') else 1)
     results, skipped = report.run_pool(worker, items, budget_s=common.tier_budget(tier, 70, 900))
     return report.finish(
         PROP, tier, seed, 'exploration', results, skipped,
